@@ -29,6 +29,7 @@ import (
 	"strconv"
 	"strings"
 
+	toml "github.com/pelletier/go-toml/v2"
 	"github.com/spf13/afero"
 	"github.com/yandex/pandora/cli"
 	grpcimport "github.com/yandex/pandora/components/grpc/import"
@@ -59,9 +60,11 @@ type cdVariant struct {
 type cdObs struct {
 	C     map[string]interface{} `json:"c"`
 	Via   string                 `json:"via"`
+	MVia  string                 `json:"mvia"` // via with the input channel of the CLI reader: cli | cli-yml | cli-stdin | ... ; decode
 	Shape string                 `json:"shape"`
 	Reg   string                 `json:"reg"`
 	Out   string                 `json:"out"`
+	Stage string                 `json:"stage"` // when an error was reported: "load" (decoding the configuration) | "start" (first call of a factory)
 	Got   []string               `json:"got"`
 	Err   string                 `json:"err"` // free text, not compared
 }
@@ -354,6 +357,11 @@ func (e *cdEnv) adversarial(adv map[string]interface{}) string {
 
 // decodeVia runs one path through the real code and reads the decoded value back.
 func (e *cdEnv) decodeVia(via, shape, reg string, tree map[string]interface{}, leaves [][]string) (out string, got []string, errText string, points [][]string) {
+	out, got, errText, points, _ = e.decodeViaStage(via, shape, reg, tree, leaves)
+	return
+}
+
+func (e *cdEnv) decodeViaStage(via, shape, reg string, tree map[string]interface{}, leaves [][]string) (out string, got []string, errText string, points [][]string, stage string) {
 	if reg == "real" {
 		plugin.SetDefaultRegistry(e.realReg)
 	} else {
@@ -371,19 +379,11 @@ func (e *cdEnv) decodeVia(via, shape, reg string, tree map[string]interface{}, l
 				out, errText = "panic", firstLine(fmt.Sprint(r))
 			}
 		}()
-		if via == "cli" {
-			b, err := json.Marshal(tree) // JSON is YAML; the file is read by viper's YAML parser
-			if err != nil {
-				panic(err)
-			}
-			f := filepath.Join(e.dir, "load.yaml")
-			if err := os.WriteFile(f, b, 0644); err != nil {
-				panic(err)
-			}
+		if strings.HasPrefix(via, "cli") {
 			// readConfig installs a development logger as zap's global one; put the no-op logger back afterwards
 			// (the hooks log at debug level through zap.L())
 			defer zap.ReplaceGlobals(zap.NewNop())
-			conf = cli.VerifReadConfig([]string{f})
+			conf = e.cliRead(strings.TrimPrefix(strings.TrimPrefix(via, "cli"), "-"), tree)
 			out = "ok"
 			return
 		}
@@ -395,6 +395,7 @@ func (e *cdEnv) decodeVia(via, shape, reg string, tree map[string]interface{}, l
 		out = "ok"
 	}()
 	if out != "ok" {
+		stage = "load"
 		return
 	}
 	// read back (calls the gun / rps factories once: a schedule config is decoded when the factory is called)
@@ -411,6 +412,7 @@ func (e *cdEnv) decodeVia(via, shape, reg string, tree map[string]interface{}, l
 		out, errText = "error", oneLine(w.err.Error())
 	}
 	if out != "ok" {
+		stage = "start"
 		return
 	}
 	if reg == "rec" {
@@ -426,6 +428,92 @@ func (e *cdEnv) decodeVia(via, shape, reg string, tree map[string]interface{}, l
 	return
 }
 
+// cdDecoy is a valid configuration that must never be the one the CLI reader uses: it lies in the search directories
+// (./load.yaml, ./config/load.yaml) whenever the case's configuration arrives through another channel.
+const cdDecoy = `{"pools": [{"id": "decoy", "gun": {"type": "http", "target": "1.2.3.4:5"}, "ammo": {"type": "uri", "file": "./ammo.uri"},
+ "result": {"type": "discard"}, "rps": {"type": "once", "times": 1}, "startup": {"type": "once", "times": 1}, "discard_overflow": false}],
+ "log": {"level": "debug"}}`
+
+// cliRead hands the configuration to cli.readConfig through one of its input channels:
+//
+//	""          file named on the command line, .yaml      yml / noext / json / toml   the same with another extension / syntax
+//	stdin       `pandora -` (YAML text on standard input)
+//	cwd         no argument, ./load.yaml                    cwdjson  ./load.json        cwdconfig  ./config/load.yaml
+//
+// in a fresh working directory; the decoy lies wherever the search could wrongly pick it up.
+func (e *cdEnv) cliRead(channel string, tree map[string]interface{}) *cli.CliConfig {
+	b, err := json.Marshal(tree) // JSON is YAML
+	if err != nil {
+		panic(err)
+	}
+	wd := filepath.Join(e.dir, "wd")
+	_ = os.RemoveAll(wd)
+	write := func(rel string, content []byte) string {
+		f := filepath.Join(wd, rel)
+		if err := os.MkdirAll(filepath.Dir(f), 0755); err != nil {
+			panic(err)
+		}
+		if err := os.WriteFile(f, content, 0644); err != nil {
+			panic(err)
+		}
+		return f
+	}
+	if err := os.MkdirAll(wd, 0755); err != nil {
+		panic(err)
+	}
+	old, err := os.Getwd()
+	if err != nil {
+		panic(err)
+	}
+	if err := os.Chdir(wd); err != nil {
+		panic(err)
+	}
+	defer func() { _ = os.Chdir(old) }()
+	var args []string
+	switch channel {
+	case "cwd":
+		write("load.yaml", b)
+		write("config/load.yaml", []byte(cdDecoy))
+	case "cwdjson":
+		write("load.json", b)
+		write("config/load.yaml", []byte(cdDecoy))
+	case "cwdconfig":
+		write("config/load.yaml", b)
+	default:
+		write("load.yaml", []byte(cdDecoy))
+		write("config/load.yaml", []byte(cdDecoy))
+		switch channel {
+		case "":
+			args = []string{write("case/conf.yaml", b)}
+		case "yml":
+			args = []string{write("case/conf.yml", b)}
+		case "noext":
+			args = []string{write("case/conf", b)}
+		case "json":
+			args = []string{write("case/conf.json", b)}
+		case "toml":
+			t, err := toml.Marshal(tree)
+			if err != nil {
+				panic("toml rendering: " + err.Error())
+			}
+			args = []string{write("case/conf.toml", t)}
+		case "stdin":
+			f, err := os.Open(write("case/stdin.txt", b))
+			if err != nil {
+				panic(err)
+			}
+			defer f.Close()
+			oldIn := os.Stdin
+			os.Stdin = f
+			defer func() { os.Stdin = oldIn }()
+			args = []string{"-"}
+		default:
+			panic("unknown channel " + channel)
+		}
+	}
+	return cli.VerifReadConfig(args)
+}
+
 func confdecodeMain(args []string) {
 	fs := flag.NewFlagSet("confdecode", flag.ExitOnError)
 	mode := fs.String("mode", "run", "points | run | conc (overlapping decodes; build with -race)")
@@ -436,6 +524,7 @@ func confdecodeMain(args []string) {
 	out := fs.String("out", "", "output (ndjson)")
 	cliStride := fs.Int("cli-stride", 1, "run every n-th case through the CLI reader as well")
 	realStride := fs.Int("real-stride", 1, "run every n-th eligible case with the real constructors as well")
+	chanPer := fs.Int("channels-per-case", 2, "how many of the other input channels of the CLI reader a channel case is run through (0 = all; kind none: always all)")
 	_ = fs.Parse(args)
 	vars := readVariants(*variantsF)
 	w := vt.Create(*out)
@@ -495,7 +584,7 @@ func confdecodeMain(args []string) {
 		}
 		set := entries(delta["set"])
 		kind := vt.Str(c["kind"])
-		phSet := vt.Bool(c["set"]) && (kind == "ph" || kind == "emb" || kind == "emblist")
+		phSet := vt.Bool(c["set"]) && (kind == "ph" || kind == "emb" || kind == "emblist" || kind == "phrange")
 		if kind == "pair" { // two mutations at once (ConfigDecodePairs.tla): TLC says whether the variable is set
 			phSet = vt.Bool(line["phset"])
 		}
@@ -508,16 +597,31 @@ func confdecodeMain(args []string) {
 		}
 		emit := func(via, shape, reg string) {
 			tree := build(base, set, del, e.props)
-			o, got, errText, _ := e.decodeVia(via, shape, reg, tree, v.leaves)
+			o, got, errText, _, stage := e.decodeViaStage(via, shape, reg, tree, v.leaves)
 			if got == nil {
 				got = []string{}
 			}
-			w.Emit(cdObs{C: c, Via: via, Shape: shape, Reg: reg, Out: o, Got: got, Err: errText})
+			v0 := via
+			if strings.HasPrefix(via, "cli") {
+				v0 = "cli"
+			}
+			w.Emit(cdObs{C: c, Via: v0, MVia: via, Shape: shape, Reg: reg, Out: o, Stage: stage, Got: got, Err: errText})
 		}
 		emit("decode", "viper", "rec")
 		emit("decode", "yaml", "rec")
 		if (i+seed)%*cliStride == 0 {
 			emit("cli", "viper", "rec")
+		}
+		// the other input channels of the CLI reader (which ones apply is TLC's: line.vias)
+		if chans := strList(line["vias"]); len(chans) > 0 {
+			sort.Strings(chans)
+			n := *chanPer
+			if n == 0 || n > len(chans) || kind == "none" {
+				n = len(chans)
+			}
+			for k := 0; k < n; k++ {
+				emit(chans[(i+seed+k)%len(chans)], "viper", "rec")
+			}
 		}
 		// the real constructors: outcome only, and only for mutations that cannot reach a constructor with a value its
 		// validation should have stopped (a constructor fed such a value may not return: NewStep with step 0);
